@@ -316,11 +316,20 @@ pub uninterp spec fn capmap_view(m: &CapMap) -> Map<Seq<char>, Handle>;
 #[verifier::external_body] pub fn caps_from(m: CapMap) -> (r: Caps) ensures caps_view(&r) == capmap_view(&m) { unimplemented!() }
 #[verifier::external_body] pub fn vs_into(s: &VString) -> (r: VString) ensures r == *s { unimplemented!() }
 
-// the variable a name denotes at the point where the function value is created: the running function's frames first,
-// then the variables it captured itself
+// the variable a name denotes at the point where the function value is created -- lexically, as `load` resolves it (C07.load.lexical): the
+// running function's OWN variables, then the variables it captured itself, then (names that are neither: module-level variables) the rest
+// of the call stack.  A caller's local of the same name is never what a closure captures.
+pub uninterp spec fn fn_lookup(f: &Frames, name: Seq<char>) -> Option<Handle>;          // Stack::find_name_in_function
+impl Ctx {
+    #[verifier::external_body]
+    pub fn load_local(&self, name: &VString) -> (r: Result<Handle, VErr>)
+        ensures r is Ok <==> fn_lookup(&self.frames, text_of(name)) is Some, r is Ok ==> cell_id(&r->Ok_0) == cell_id(&fn_lookup(&self.frames, text_of(name))->Some_0)
+    { unimplemented!() }
+}
 pub open spec fn found(ctx: &Ctx, n: Seq<char>) -> Option<Handle> {
-    if frame_lookup(&ctx.frames, n) is Some { frame_lookup(&ctx.frames, n) }
+    if fn_lookup(&ctx.frames, n) is Some { fn_lookup(&ctx.frames, n) }
     else if ctx.callback_state is Some && caps_view(&ctx.callback_state->Some_0).contains_key(n) { Some(caps_view(&ctx.callback_state->Some_0)[n]) }
+    else if frame_lookup(&ctx.frames, n) is Some { frame_lookup(&ctx.frames, n) }
     else { None }
 }
 """
